@@ -23,14 +23,15 @@ var repoDir = "/repo"
 
 // world is everything loaded for one run.
 type world struct {
-	prog      *ssa.Program
-	pkgs      []*packages.Package
-	spkgs     []*ssa.Package
-	fset      *token.FileSet
-	contracts map[string]*contractFile // by package path
-	files     map[string]*ast.File     // by filename (for source text of obligations)
-	pkgOfFile map[string]*packages.Package
+	prog           *ssa.Program
+	pkgs           []*packages.Package
+	spkgs          []*ssa.Package
+	fset           *token.FileSet
+	contracts      map[string]*contractFile // by package path
+	files          map[string]*ast.File     // by filename (for source text of obligations)
+	pkgOfFile      map[string]*packages.Package
 	inlineExternal map[string]bool
+	trustedExt     map[string]*contract
 }
 
 func loadWorld(patterns []string) (*world, error) {
@@ -51,7 +52,14 @@ func loadWorld(patterns []string) (*world, error) {
 	}
 	prog, spkgs := ssautil.Packages(pkgs, ssa.GlobalDebug|ssa.BareInits)
 	prog.Build()
-	w := &world{prog: prog, pkgs: pkgs, spkgs: spkgs, contracts: map[string]*contractFile{}, files: map[string]*ast.File{}, pkgOfFile: map[string]*packages.Package{}}
+	w := &world{prog: prog, pkgs: pkgs, spkgs: spkgs, contracts: map[string]*contractFile{}, files: map[string]*ast.File{}, pkgOfFile: map[string]*packages.Package{}, trustedExt: map[string]*contract{}}
+	if b, err := os.ReadFile(filepath.Join(verifDir, "trusted", "stdlib.contracts.go")); err == nil {
+		cf, err := parseContractFile("trusted/stdlib.contracts.go", string(b))
+		if err != nil {
+			return nil, err
+		}
+		w.trustedExt = cf.trusted
+	}
 	if len(pkgs) > 0 {
 		w.fset = pkgs[0].Fset
 	}
